@@ -11,3 +11,5 @@ def run(ctx):
         blockcamp.run(ctx, "C06", 160 if q else 1600)
         from .. import dwvw
         dwvw.run(ctx, "C06", 120 if q else 1200)
+        from .. import gsm
+        gsm.run(ctx, "C06", 120 if q else 1200)
